@@ -10,7 +10,8 @@ This module wraps, inside the harness process only (nothing in /repo changes), e
 replacement-style methods of Signal / AccSignal so that a share of the calls the property modules make anyway is
 
   * **preceded** by a call with a *colliding variant* of one argument (same length and same first/last element but another
-    interior; every entry moved by a relative 3e-7; an integer moved by one) — the call the module asked for then runs on whatever
+    interior; two neighbouring samples exchanged — same length, ends, sum; every entry moved by a relative 3e-7; a float option
+    replaced by another value; an integer moved by one) or by a call of another public function of the same module on the same record — the call the module asked for then runs on whatever
     state the variant left behind, and its result is judged by the module's own correspondence and oracles as usual;
   * for functions (not methods) additionally **followed** by variant + the same call again: the two results of the same arguments
     must be identical bit for bit (every property defines the result as a function of the arguments; C05 says it outright).
@@ -40,6 +41,7 @@ class _State:
     n_pre = 0
     n_post = 0
     n_post_fail = 0
+    n_timeout = 0
 
 
 ST = _State()
@@ -92,6 +94,16 @@ def _variant(x, kind):
             if np.array_equal(a, b):
                 return None
             return _rebuild(x, b)
+        if kind == 'swap':
+            if a.size < 4:
+                return None
+            idx = [i for i in range(1, a.size - 2) if a[i] != a[i + 1]]
+            if not idx:
+                return None
+            i = idx[(int(abs(float(a[1])) * 1e6) + a.size) % len(idx)]
+            b = a.copy()
+            b[i], b[i + 1] = a[i + 1], a[i]
+            return _rebuild(x, b)
         if kind == 'near':
             if a.dtype.kind != 'f' and not (isinstance(x, (list, tuple)) and any(isinstance(v, float) for v in x)):
                 return None
@@ -106,6 +118,10 @@ def _variant(x, kind):
         if x == 0 or not np.isfinite(x):
             return None
         return type(x)(x * (1 + 3e-7))
+    if isinstance(x, (float, np.floating)) and kind == 'other':
+        if not np.isfinite(x):
+            return None
+        return type(x)(x * 2 + 0.1)
     if isinstance(x, (int, np.integer)) and not isinstance(x, bool) and kind == 'step':
         if 2 <= x <= 10 ** 6:
             return type(x)(x + 1)
@@ -128,8 +144,10 @@ def _candidates(a, k, allow_scalars):
         if _is_num_seq(v):
             out.append((where, key, 'interior'))
             out.append((where, key, 'near'))
-        elif allow_scalars and isinstance(v, (float, np.floating)):
+            out.append((where, key, 'swap'))
+        elif isinstance(v, (float, np.floating)) and not (where == 'a' and key == 0):
             out.append((where, key, 'near'))
+            out.append((where, key, 'other'))
         elif allow_scalars and isinstance(v, (int, np.integer)) and not isinstance(v, bool):
             out.append((where, key, 'step'))
     return out
@@ -183,14 +201,42 @@ def _brief(v):
     return repr(v)[:80]
 
 
-def _run(orig, a, k):
+class _ProbeTimeout(BaseException):
+    pass
+
+
+def _on_alarm(signum, frame):
+    raise _ProbeTimeout()
+
+
+def _run(orig, a, k, limit=2.0):
+    """an extra call made by the probe (never the call the module asked for): exceptions are swallowed and the call is abandoned after
+    `limit` seconds (a variant or a sibling function may be far outside its domain, e.g. one loop iteration per second of a record
+    with dt = 1000)"""
+    import signal
     import warnings
+    old = None
+    try:
+        old = signal.signal(signal.SIGALRM, _on_alarm)
+        signal.setitimer(signal.ITIMER_REAL, limit)
+    except Exception:  # noqa  (not the main thread)
+        old = None
     try:
         with warnings.catch_warnings():
             warnings.simplefilter('ignore')
             return ('ok', orig(*a, **k))
+    except _ProbeTimeout:
+        ST.n_timeout += 1
+        return ('err', 'ProbeTimeout')
     except Exception as e:  # noqa
         return ('err', type(e).__name__)
+    finally:
+        if old is not None:
+            try:
+                signal.setitimer(signal.ITIMER_REAL, 0)
+                signal.signal(signal.SIGALRM, old)
+            except Exception:  # noqa
+                pass
 
 
 def _touch(obj):
@@ -269,7 +315,9 @@ def _wrap_function(orig, qual):
             res = orig(*a, **k)                   # the call the module asked for (exceptions propagate as usual)
             if rng.random() < 0.5 and _comparable(res):
                 _run(orig, *_evict_args(a, k))    # a call with another memo key (evicts one-entry memos)
-                again = _run(orig, a, k)
+                again = _run(orig, a, k, limit=60.0)
+                if again == ('err', 'ProbeTimeout'):
+                    return res
                 st.n_post += 1
                 ok = again[0] == 'ok' and _same(res, again[1]) is not False
                 if not ok:
@@ -383,4 +431,4 @@ def disable():
 
 
 def summary():
-    return {'pre_calls': ST.n_pre, 'post_consistency_checks': ST.n_post, 'post_failures': ST.n_post_fail}
+    return {'pre_calls': ST.n_pre, 'post_consistency_checks': ST.n_post, 'post_failures': ST.n_post_fail, 'abandoned_extra_calls': ST.n_timeout}
